@@ -354,6 +354,7 @@ void cpc_compressor<A>::uncompress_sliding_flavor(const compressed_state<A>& sou
       const uint32_t row_col = pairs[i];
       const uint32_t row = row_col >> 6;
       uint8_t col = row_col & 63;
+      if (col >= 56) throw std::out_of_range("col out of range");
       // first undo the permutation
       col = permutation[col];
       // then undo the rotation: old = (new + (offset+8)) mod 64
